@@ -128,6 +128,7 @@ def _reverse_velocities_dataflow(tier):
                 mod = __import__(f"infretis.classes.engines.{'turtlemdengine' if engine == 'turtlemd' else 'cp2k'}", fromlist=["x"])
                 cls = mod.TurtleMDEngine if engine == "turtlemd" else mod.CP2KEngine
                 e = object.__new__(cls)
+                e.dim = 2  # a lower-dimensional TurtleMD system: all three velocity columns of the file must still be negated
                 e._read_configuration = lambda fn: (rec.setdefault("read", fn) and None) or (xyz.copy(), vel.copy(), box.copy(), list(names))
                 saved = mod.write_xyz_trajectory
                 mod.write_xyz_trajectory = lambda fn, pos, v, nm, bx, step=None, append=True: rec.update(out=fn, pos=pos, vel=v, names=nm, box=bx, append=append)
